@@ -132,6 +132,7 @@ class Sim(object):
         self.ests = []          # (obj index, smiles, estimate, decomposed-other-molecule-in-between?)
         self.trace = []
         self.nontrivial = False
+        self.rev = {}           # obj index -> {group name: (dH, dS, T_ref)}: reference values revised by an overwriting merge
 
     def fail(self, bucket, msg):
         self.ctx.fail(bucket, '%s\nhistory: %s' % (msg, self.trace[-25:]), case=dict(kind='history', libs=self.libs, pools=self.pools, trace=self.trace))
@@ -164,7 +165,18 @@ class Sim(object):
             return
         smi = self.pools[L][mi % len(self.pools[L])]
         given = smi
-        if alt:
+        if alt == 'mol':
+            # the species as an RDKit Mol object that carries its hydrogens as atoms - ONE object per species for the whole
+            # history, handed to whichever library object comes next
+            from rdkit import Chem
+            if not hasattr(self, 'mols'):
+                self.mols = {}
+            if smi not in self.mols:
+                self.mols[smi] = Chem.AddHs(Chem.MolFromSmiles(smi))
+            given = self.mols[smi]
+            self.trace.append(['decompose_mol', oi, mi % len(self.pools[L])])
+            self.ctx.event('op:decompose-mol-object')
+        elif alt:
             # the same species written in another atom order (C03: same descriptors) - a later request for a species the
             # object has seen before, but numbered differently
             from vlib import molgen
@@ -190,7 +202,7 @@ class Sim(object):
             self.nontrivial = True
         if got != want:
             self.fail('descriptors-depend-on-history', '%s descriptors of %r%s: fresh process %s, after this history %s'
-                      % (L, smi, ' (written %r)' % given if given != smi else '', want, got))
+                      % (L, smi, ' (written %r)' % (given if isinstance(given, str) else 'as an explicit-hydrogen Mol object used before') if given is not smi else '', want, got))
         hist.append(smi)
         if d is not None:
             self.decs.append((oi, smi, d))
@@ -236,6 +248,61 @@ class Sim(object):
             if later_other:
                 self.nontrivial = True
 
+    def shifted(self, oi, smi, X, T, want):
+        """the fresh-process value moved by the revisions this object has received (analytically: a change d of H_ref/RT_ref of a
+        group adds count*d*T_ref/T to H/RT; a change of S_ref/R adds count*d to S/R; Cp/R stays)"""
+        rv = self.rev.get(oi)
+        if not rv or isinstance(want, str):
+            return want
+        L = self.objs[oi][0]
+        desc = self.base[L]['mols'][smi]['desc']
+        if not isinstance(desc, dict):
+            return want
+        dH = sum(desc.get(g, 0) * d[0] * d[2] / T for g, d in rv.items())
+        dS = sum(desc.get(g, 0) * d[1] for g, d in rv.items())
+        return want + {'HoRT': dH, 'SoR': dS, 'GoRT': dH - dS}.get(X, 0.0)
+
+    def revise(self, oi, gi, hi, si):
+        """an overwriting merge that revises only the reference enthalpy / entropy of one group the pool molecules use"""
+        from pgradd.GroupAdd.Library import GroupLibrary
+        from pgradd.ThermoChem import ThermochemGroup
+        if not self.objs:
+            return
+        oi %= len(self.objs)
+        L, obj, hist, flag = self.objs[oi]
+        if flag:
+            return
+        used = sorted({g for smi in self.pools[L] for g in (self.base[L]['mols'][smi]['desc'] if isinstance(self.base[L]['mols'][smi]['desc'], dict) else {})})
+        keys = {str(k): k for k in obj}
+        used = [g for g in used if g in keys and 'thermochem' in obj[keys[g]] and obj[keys[g]]['thermochem'].ND_H_ref is not None
+                and obj[keys[g]]['thermochem'].ND_S_ref is not None]
+        if not used:
+            return
+        g = used[gi % len(used)]
+        tc = obj[keys[g]]['thermochem']
+        dH, dS = [1.5, -4.0, 0.0, 12.25][hi % 4], [0.0, 0.75, -2.0, 0.0][si % 4]
+        if dH == 0 and dS == 0:
+            dH = 3.0
+        self.trace.append(['revise', oi, gi % len(used), hi % 4, si % 4])
+        donor = GroupLibrary(obj.scheme, {keys[g]: {'thermochem': ThermochemGroup(float(tc.ND_H_ref) + dH, float(tc.ND_S_ref) + dS, {}, float(tc.T_ref), None)}})
+        try:
+            obj.Update(donor, overwrite=True)
+        except ValueError:
+            self.ctx.event('op:revise-refused(uncertainty-block)')
+            return
+        except Exception as e:
+            self.fail('revision-raises:%s' % type(e).__name__, 'Update(overwrite=True) with new reference values for %s raised %s: %s' % (g, type(e).__name__, e))
+            return
+        old = self.rev.setdefault(oi, {}).get(g, (0.0, 0.0, float(tc.T_ref)))
+        self.rev[oi][g] = (old[0] + dH, old[1] + dS, float(tc.T_ref))
+        self.ctx.event('op:revise')
+        self.nontrivial = True
+        # every estimate of this object follows the revised data at once (they hold the library's correlation objects)
+        mine = [k for k, e in enumerate(self.ests) if e[0] == oi]
+        for k in mine[-2:]:
+            self.evaluate(k, 0, 0, False, record=False)
+            self.evaluate(k, 1, 2, False, record=False)
+
     def evaluate(self, ei, ti, xi, elemental, record=True):
         if not self.ests:
             return
@@ -250,7 +317,7 @@ class Sim(object):
         key = '%s/%s/%s' % (X, 'el' if el else 'abs', T)
         if record:
             self.trace.append(['evaluate', ei, ti % len(TS), xi % 4, el])
-        want = self.base[L]['mols'][smi]['values'][key]
+        want = self.shifted(oi, smi, X, T, self.base[L]['mols'][smi]['values'][key])
         with warnings.catch_warnings():
             warnings.simplefilter('ignore')
             try:
@@ -259,8 +326,9 @@ class Sim(object):
                 got = 'EXC:' + type(ex).__name__
         self.ctx.count()
         self.ctx.event('op:evaluate%s' % (':elemental' if el else ''))
-        if not near(got, want):
-            tag = 'elemental-reference' if el else 'value'
+        if not (near(got, want) if not self.rev.get(oi) or isinstance(got, str) or isinstance(want, str)
+                else abs(got - want) <= 1e-9 * max(abs(got), abs(want), 1.0)):
+            tag = 'elemental-reference' if el else ('value' if not self.rev.get(oi) else 'value-after-revision')
             hist = self.objs[oi][2]
             moved = later_other or (hist and hist[-1] != smi)
             self.fail('%s-depends-on-history:%s' % (tag, 'estimate-made-after-a-later-decomposition' if (el and later_other) else
@@ -308,7 +376,7 @@ class Sim(object):
         self.trace.append(['evaluate_dim', ei, ti % len(TS), ui % 6, which % 4])
         vals = self.base[L]['mols'][smi]['values']
         R = c.R(u + '/K')
-        nd = {k: vals['%s/abs/%s' % (k, T)] for k in ('HoRT', 'SoR', 'CpoR', 'GoRT')}
+        nd = {k: self.shifted(oi, smi, k, T, vals['%s/abs/%s' % (k, T)]) for k in ('HoRT', 'SoR', 'CpoR', 'GoRT')}
         need = {'H': ['HoRT'], 'S': ['SoR'], 'Cp': ['CpoR'], 'G': ['GoRT']}[X]
         with warnings.catch_warnings():
             warnings.simplefilter('ignore')
@@ -336,7 +404,7 @@ class Sim(object):
             return
         ai %= len(self.objs)
         bi %= len(self.objs)
-        if ai == bi or self.objs[ai][0] != self.objs[bi][0] or 'mixed' in (self.objs[ai][3], self.objs[bi][3]):
+        if ai == bi or self.objs[ai][0] != self.objs[bi][0] or 'mixed' in (self.objs[ai][3], self.objs[bi][3]) or ai in self.rev or bi in self.rev:
             return
         self.trace.append(['merge', ai, bi])
         try:
@@ -355,7 +423,7 @@ class Sim(object):
             return
         ai %= len(self.objs)
         bi %= len(self.objs)
-        if ai == bi or self.objs[ai][0] == self.objs[bi][0] or self.objs[bi][3] == 'mixed':
+        if ai == bi or self.objs[ai][0] == self.objs[bi][0] or self.objs[bi][3] == 'mixed' or bi in self.rev:
             return
         if self.objs[ai][3] != 'mixed' and sum(1 for o in self.objs if o[3] == 'mixed') >= 2:
             return                      # keep most objects comparable with the fresh-process table
@@ -372,8 +440,8 @@ class Sim(object):
 
     def check_objects(self):
         for k, (L, obj, hist, altered) in enumerate(self.objs):
-            if altered:
-                continue                      # reported once; the history goes on with the object as it is
+            if altered or k in self.rev:
+                continue                      # reported once / deliberately revised; the history goes on with the object as it is
             fp = shipped.fingerprint(obj)
             if not same_fp(fp, self.base[L]['fingerprint']):
                 from props.C14 import diff_fp
@@ -424,7 +492,7 @@ def run_histories(ctx, fam, n):
 
         # ONE rule with a weighted choice of operation: Hypothesis draws rules uniformly, so separate rules would make the mix of
         # operations depend on how many kinds there are (merges would crowd out decompositions and evaluations)
-        @rule(op=st.sampled_from(['decompose'] * 6 + ['estimate'] * 5 + ['evaluate'] * 6 + ['load'] * 2 + ['merge', 'cross_merge', 'cross_merge_twice']),
+        @rule(op=st.sampled_from(['decompose'] * 6 + ['estimate'] * 5 + ['evaluate'] * 6 + ['load'] * 2 + ['merge', 'cross_merge', 'cross_merge_twice', 'revise', 'revise']),
               a=st.integers(0, 30), b=st.integers(0, 8), c=st.integers(0, 8), ti=st.integers(0, 2), xi=st.integers(0, 3), flag=st.booleans(),
               mode=st.sampled_from([0, 0, 1, 2]), ui=st.integers(0, 5))
         def step(self, op, a, b, c, ti, xi, flag, mode, ui):
@@ -432,7 +500,7 @@ def run_histories(ctx, fam, n):
             if op == 'load':
                 sim.load(a, flag)
             elif op == 'decompose':
-                sim.decompose(a, b, alt=flag and xi == 0)
+                sim.decompose(a, b, alt=('spelling' if xi == 0 else 'mol' if xi == 1 else False) if flag else False)
             elif op == 'estimate':
                 sim.estimate(a)
             elif op == 'evaluate':
@@ -442,6 +510,8 @@ def run_histories(ctx, fam, n):
                     sim.evaluate_dim(a, ti, ui, xi)
                 else:
                     sim.evaluate_se(a, ti, xi)
+            elif op == 'revise':
+                sim.revise(b, a, xi, ui)
             elif op == 'merge':
                 sim.merge(b, c)
             elif op == 'cross_merge':
@@ -483,6 +553,8 @@ def replay(ctx, case):
             sim.decompose(step[1], step[2])
         elif op == 'decompose_alt':
             sim.decompose(step[1], step[2], alt=True)
+        elif op == 'decompose_mol':
+            sim.decompose(step[1], step[2], alt='mol')
         elif op == 'evaluate_se':
             sim.evaluate_se(step[1], step[2], step[3])
         elif op == 'evaluate_dim':
@@ -491,6 +563,8 @@ def replay(ctx, case):
             sim.estimate(step[1])
         elif op == 'evaluate':
             sim.evaluate(step[1], step[2], step[3], step[4])
+        elif op == 'revise':
+            sim.revise(step[1], step[2], step[3], step[4])
         elif op == 'merge':
             sim.merge(step[1], step[2])
         elif op == 'cross_merge':
